@@ -43,6 +43,47 @@ pub fn arith<T: Subj>(tier: Tier) -> Plan<T> {
         .with_heavy_limit(if bits == 16 { 24 } else { usize::MAX })
 }
 
+/// product-landmark pairs (multiplication and division): N <= 3, types wider than 16 bits.  Landmark
+/// digits are digits whose pairwise products have boundary halves (sets::landmark_digits).
+pub fn landmark_plan<T: Subj>(tier: Tier) -> Option<Plan<T>> {
+    let (w, n, bits) = (T::DIGIT_BITS, T::N, T::BITS);
+    if bits <= 16 || n > 3 {
+        return None;
+    }
+    let k = match (n, tier) {
+        (1, _) => usize::MAX,
+        (2, Tier::Quick) => 24,
+        (2, Tier::Thorough) => usize::MAX,
+        (_, Tier::Quick) => 9,
+        (_, Tier::Thorough) => 14,
+    };
+    let a = sets::landmark_grid(w, n, k);
+    let kb = match (n, tier) {
+        (1, _) | (2, Tier::Thorough) => usize::MAX,
+        (2, Tier::Quick) => 16,
+        (_, Tier::Quick) => 7,
+        (_, Tier::Thorough) => 10,
+    };
+    let b = sets::landmark_grid(w, n, kb);
+    let c: Vec<Vec<u8>> = a.iter().take(8).cloned().collect();
+    let label = format!("PRODUCT LANDMARKS: {} x {} values over landmark digits", a.len(), b.len());
+    Some(Plan::new(&label, &a, &b, &c).with_heavy_limit(16))
+}
+
+/// the widest configurations (8192 bits): bound the registers and the exponent list (a multiplication costs
+/// about a millisecond there)
+pub fn hugeify<T: Subj>(mut p: Plan<T>, max_a: usize, max_b: usize) -> Plan<T> {
+    let bits = T::BITS as u64;
+    p.a.truncate(max_a);
+    p.b.truncate(max_b);
+    p.c.truncate(3);
+    if let Some(e) = p.aux.get_mut(&Aux::Exp) {
+        e.retain(|x| *x <= 3 || *x == 7 || (*x + 1 >= bits && *x <= bits + 1) || *x >= (1 << 32) - 2);
+    }
+    p.label = format!("HUGE ({} bits): {}", bits, p.label);
+    p
+}
+
 /// unary plans: FULL up to 24 bits, structured otherwise
 pub fn unary<T: Subj>(tier: Tier) -> Plan<T> {
     let (w, n, bits) = (T::DIGIT_BITS, T::N, T::BITS);
